@@ -92,7 +92,16 @@ P.update({
             "Scripted services are stateless Python fakes; replies not yet produced when the client closes early are not required by the statement (reported as info counters).", "4 C18"),
 })
 
-CLAIMED = ["C01", "C02", "C03", "C04", "C05", "C06", "C07", "C10", "C11", "C12", "C13", "C14", "C15", "C16", "C17", "C18", "C19", "C20"]
+P.update({
+    "C08": ("exploration", "runtime monitor over generated programs: byte tap between the generated client and the generated server proxy, recording server implementation, judged against expected JSON built from the IDL alone",
+            "24 (quick) / 400 (thorough) grammar-directed interface definitions are run through the generator under test; a driver crate is emitted whose trait-impl signatures are copied token-for-token from the emitted `trait VarlinkInterface`; for 40/200 IDL-type-directed values per method and the modes call / more / oneway with reply and every declared error as outcomes, the tapped request (method name, parameters, flags), the values the implementation saw, the tapped reply frames and the value or error variant the generated client returned are compared with JSON expectations derived from the definition; ill-typed and missing parameters must be answered with InvalidParameter without reaching the implementation.",
+            "Only constructs the emitted code compiles for are driven (the rest is C09's); null-valued members count as absent on both sides.", "4 C08"),
+    "C09": ("exploration", "runtime monitor over generated programs: generate() under catch_unwind, the generator binary, the proc macro and the build-script helper; oracle = rustc (cargo check) on crates containing only emitted modules, diagnostics attributed per module",
+            "60 (quick) / 1500 (thorough) definitions with anonymous structs/enums in every position, IDL and Rust keywords as field names, typedef references (recursion through [] and [string]) and at most one injected risky feature each are emitted through generate(), the varlink-rust-generator binary (same output, exit 0), varlink_derive::varlink! and cargo_build_many; a panic, an abnormal exit or a rustc error located in an emitted module is a violation (classified by the risky feature so that known findings stay specific). Rejection half: token-mutated texts the parser rejects must make every front-end fail with a diagnostic and no output.",
+            "The parser's accept/reject verdict is taken as given (C11). rustc is the oracle for 'compiles'.", "4 C09"),
+})
+
+CLAIMED = ["C%02d" % i for i in range(1, 21)]
 
 ALL = ["C%02d" % i for i in range(1, 21)]
 
